@@ -2,7 +2,7 @@
 From Coq Require Import List ZArith Bool Arith Lia Reals Lra.
 From Interval Require Import Tactic.
 Import ListNotations.
-From RV Require Import Lib.Str Gen.GenFacts Model.Denoise.
+From RV Require Import Lib.Str Gen.GenFactsSession Model.Denoise.
 
 Definition is_restore (d : dev) : bool := match d with DRestore _ _ => true | _ => false end.
 
